@@ -964,3 +964,54 @@ func c20r10(rc *core.RC) {
 		rc.Unknown("decoder/path-entry", token.NoPos, "no call of PathBuilder.Build found in path.go")
 	}
 }
+
+// ---- C20.R11 the skippers walk strings byte by byte ----
+
+// Where a string ends is decided by walking it from its opening quote and consuming escape pairs left to right:
+// a quote ends the string exactly when an even number of backslashes precedes it. The six skippers (skipObject,
+// skipArray, skipValue in buffer and stream form) do that with a byte dispatch that has a clause for '\\' (step over
+// the next byte) and one for '"'. A search for the next quote (bytes.IndexByte) with a look at the two bytes in
+// front of it gets \\\" wrong: the scanner leaves the string early and the object is cut at the wrong brace.
+func c20r11(rc *core.RC) {
+	has := map[string]bool{}
+	for _, d := range dispatchSites(rc) {
+		if d.role == "in-string" && d.bs.ClauseOf('\\') != nil && d.bs.ClauseOf('"') != nil {
+			has[d.fn] = true
+		}
+	}
+	p := rc.P
+	n := 0
+	for _, name := range []string{"skipObject", "skipArray", "skipValue", "Stream.skipObject", "Stream.skipArray", "Stream.skipValue"} {
+		fd := p.Func("decoder", name)
+		if fd == nil {
+			rc.Unknown("decoder."+name, token.NoPos, "skipper not found")
+			continue
+		}
+		n++
+		fn := p.FuncName(fd)
+		rc.Touch(fn)
+		key := fn + "/strings-walked-byte-by-byte"
+		// a quote search in the function is the tell-tale of the shortcut
+		search := ""
+		info := p.Info(fd)
+		ast.Inspect(fd.Body, func(m ast.Node) bool {
+			if c, ok := m.(*ast.CallExpr); ok {
+				if name := core.CalleeName(info, c); strings.HasPrefix(name, "bytes.Index") || strings.HasPrefix(name, "strings.Index") {
+					search = name
+				}
+			}
+			return true
+		})
+		switch {
+		case has[fn] && search == "":
+			rc.OK(key, fd.Pos(), "strings are walked by a byte dispatch with clauses for the backslash and the quote")
+		case search != "":
+			rc.Bad(key, fd.Pos(), "the skipper looks for the end of a string with %s: whether the quote it finds is escaped depends on the parity of all backslashes in front of it, which a look at one or two bytes cannot tell (\\\\\\\" ends the string too early)", search)
+		default:
+			rc.Bad(key, fd.Pos(), "no in-string byte dispatch with clauses for '\\\\' and '\"' found: strings inside skipped values are not walked escape by escape")
+		}
+	}
+	if n < 6 {
+		rc.Unknown("decoder/skippers-strings", token.NoPos, "found %d of the six skippers", n)
+	}
+}
